@@ -1,65 +1,83 @@
 (* C45 model: which connections are open/closed across Cluster.shutdown / Session.shutdown, with a coarse pool summary
-   (one connection per HostConnection), the control connection, host and control reconnection handlers, the executor
-   queue and the scheduler.  One step = one call into the driver (deterministic executor/scheduler); `during = true`
-   means: the cluster is shut down by another thread while this step's connect is in progress.
+   (HostConnection: current connection, is_shutdown, _is_replacing, the trash of replaced connections that still carry
+   requests), the control connection, host and control reconnection handlers, the executor queue and the scheduler.
+   One step = one call into the driver (deterministic executor/scheduler); `during = true` means: the cluster is shut down
+   by another thread while this step's connect is in progress, or right before the locked region that follows it
+   (the harness forces both windows; that the "shut down meanwhile?" test and the install share one lock region is
+   checked on the source by checks/C45.py:lock_audit).
    Source regions: Cluster.shutdown, Session.shutdown/submit/add_or_renew_pool (cluster.py); ControlConnection.reconnect/
    _reconnect/_reconnect_internal/_try_connect/_set_new_connection/shutdown, _ControlReconnectionHandler (cluster.py);
-   HostConnection._replace/shutdown, _ReconnectionHandler.run, _HostReconnectionHandler (pool.py); Cluster._start_reconnector.
+   HostConnection._replace/return_connection/shutdown, _ReconnectionHandler.run, _HostReconnectionHandler (pool.py);
+   Cluster._start_reconnector.
    No proofs in this file. *)
 From Coq Require Import ZArith List Bool Arith.
 Import ListNotations.
 
 Inductive oc := Ok | Err.
-Inductive task := KAddPool (h : nat) | KReplace (h c0 : nat) | KCCReconnect.
+(* how the connection being replaced is disposed of: orphan limit reached and idle -> closed; still carrying a request ->
+   trash; lost (defunct, already closed) -> nothing *)
+Inductive rmode := RIdle | RBusy | RLost.
+Inductive task := KAddPool (h : nat) (initial : bool) | KReplace (h p c0 : nat) (m : rmode) | KCCReconnect.
 Inductive timer := TRecon (h : nat) (live : bool) | TCtl (live : bool).
 Inductive op :=
-| OPoolTask (h : nat) | OReplace (h : nat) | OCCReconnect | OStartRecon (h : nat)
+| OPoolTask (h : nat) (initial : bool) | OReplace (h : nat) (busy : bool) | OConnLost (h : nat) | OTrashDone (h : nat)
+| OCCReconnect | OStartRecon (h : nat)
 | ORun (k : nat) (o : oc) (during : bool) | OFire (k : nat) (o : oc) (during : bool)
+| ORunNested (k j : nat)          (* pool creation k is about to install its pool when pool creation j runs to completion *)
 | OClusterShutdown | OSessionShutdown | OSubmit | ORequest.
 Inductive out := Refused | Accepted | Nothing.
 
-Record st := mk { nconn : nat; closed : list nat; cl_down : bool; sess_down : bool; cc_down : bool; sched_down : bool;
-                  pool : nat -> option (option nat * bool); cc_conn : option nat;
-                  queue : list task; timers : list timer; nh : nat;
-                  attempts : nat (* connection attempts started so far *) }.
+Record pl := mkp { pid : nat; pconn : option nat; pshut : bool; prepl : bool; ptrash : list nat }.
 
-Definition set_nconn s v := mk v (closed s) (cl_down s) (sess_down s) (cc_down s) (sched_down s) (pool s) (cc_conn s) (queue s) (timers s) (nh s) (attempts s).
-Definition set_closed s v := mk (nconn s) v (cl_down s) (sess_down s) (cc_down s) (sched_down s) (pool s) (cc_conn s) (queue s) (timers s) (nh s) (attempts s).
-Definition set_pool s v := mk (nconn s) (closed s) (cl_down s) (sess_down s) (cc_down s) (sched_down s) v (cc_conn s) (queue s) (timers s) (nh s) (attempts s).
-Definition set_cc s v := mk (nconn s) (closed s) (cl_down s) (sess_down s) (cc_down s) (sched_down s) (pool s) v (queue s) (timers s) (nh s) (attempts s).
-Definition set_queue s v := mk (nconn s) (closed s) (cl_down s) (sess_down s) (cc_down s) (sched_down s) (pool s) (cc_conn s) v (timers s) (nh s) (attempts s).
-Definition set_timers s v := mk (nconn s) (closed s) (cl_down s) (sess_down s) (cc_down s) (sched_down s) (pool s) (cc_conn s) (queue s) v (nh s) (attempts s).
-Definition set_attempts s v := mk (nconn s) (closed s) (cl_down s) (sess_down s) (cc_down s) (sched_down s) (pool s) (cc_conn s) (queue s) (timers s) (nh s) v.
+Record st := mk { nconn : nat; closed : list nat; cl_down : bool; sess_down : bool; cc_down : bool; sched_down : bool;
+                  pool : nat -> option pl; cc_conn : option nat;
+                  queue : list task; timers : list timer; nh : nat;
+                  attempts : nat (* connection attempts started so far *);
+                  npool : nat (* pools installed so far *) }.
+
+Definition set_nconn s v := mk v (closed s) (cl_down s) (sess_down s) (cc_down s) (sched_down s) (pool s) (cc_conn s) (queue s) (timers s) (nh s) (attempts s) (npool s).
+Definition set_closed s v := mk (nconn s) v (cl_down s) (sess_down s) (cc_down s) (sched_down s) (pool s) (cc_conn s) (queue s) (timers s) (nh s) (attempts s) (npool s).
+Definition set_pool s v := mk (nconn s) (closed s) (cl_down s) (sess_down s) (cc_down s) (sched_down s) v (cc_conn s) (queue s) (timers s) (nh s) (attempts s) (npool s).
+Definition set_cc s v := mk (nconn s) (closed s) (cl_down s) (sess_down s) (cc_down s) (sched_down s) (pool s) v (queue s) (timers s) (nh s) (attempts s) (npool s).
+Definition set_queue s v := mk (nconn s) (closed s) (cl_down s) (sess_down s) (cc_down s) (sched_down s) (pool s) (cc_conn s) v (timers s) (nh s) (attempts s) (npool s).
+Definition set_timers s v := mk (nconn s) (closed s) (cl_down s) (sess_down s) (cc_down s) (sched_down s) (pool s) (cc_conn s) (queue s) v (nh s) (attempts s) (npool s).
+Definition set_attempts s v := mk (nconn s) (closed s) (cl_down s) (sess_down s) (cc_down s) (sched_down s) (pool s) (cc_conn s) (queue s) (timers s) (nh s) v (npool s).
+Definition set_npool s v := mk (nconn s) (closed s) (cl_down s) (sess_down s) (cc_down s) (sched_down s) (pool s) (cc_conn s) (queue s) (timers s) (nh s) (attempts s) v.
 Definition att (s : st) (n : nat) : st := set_attempts s (attempts s + n).
 
 Definition close (s : st) (c : nat) : st := set_closed s (c :: closed s).
 Definition close_opt (s : st) (o : option nat) : st := match o with Some c => close s c | None => s end.
-Definition upd_pool (s : st) (h : nat) (v : option (option nat * bool)) : st :=
+Definition close_all (s : st) (l : list nat) : st := set_closed s (l ++ closed s).
+Definition upd_pool (s : st) (h : nat) (v : option pl) : st :=
   set_pool s (fun x => if x =? h then v else pool s x).
 
-Definition pool_conn (p : option (option nat * bool)) : option nat :=
-  match p with Some (Some c, _) => Some c | _ => None end.
-Definition shut_pool (p : option (option nat * bool)) : option (option nat * bool) :=
-  match p with Some _ => Some (None, true) | None => None end.
+(* every connection a pool holds: the current one and the trash *)
+Definition pl_conns (p : pl) : list nat := (match pconn p with Some c => [c] | None => [] end) ++ ptrash p.
+Definition opl_conns (o : option pl) : list nat := match o with Some p => pl_conns p | None => [] end.
+(* HostConnection.shutdown: current connection closed, trash emptied and closed *)
+Definition shut_pl (p : pl) : pl := mkp (pid p) None true (prepl p) [].
+Definition shut_pool (o : option pl) : option pl := match o with Some p => Some (shut_pl p) | None => None end.
 
-(* Session.shutdown: every pool in _pools is shut down (its connection closed) *)
+Definition is_initial (t : task) : bool := match t with KAddPool _ true => true | _ => false end.
+
+(* Session.shutdown: the initial pool creations that have not started are cancelled, every pool in _pools is shut down *)
 Definition session_shutdown (s : st) : st :=
   if sess_down s then s else
-  let conns := flat_map (fun h => match pool_conn (pool s h) with Some c => [c] | None => [] end) (seq 0 (nh s)) in
+  let conns := flat_map (fun h => opl_conns (pool s h)) (seq 0 (nh s)) in
   mk (nconn s) (conns ++ closed s) (cl_down s) true (cc_down s) (sched_down s) (fun h => shut_pool (pool s h)) (cc_conn s)
-     (queue s) (timers s) (nh s) (attempts s).
+     (filter (fun t => negb (is_initial t)) (queue s)) (timers s) (nh s) (attempts s) (npool s).
 
 (* ControlConnection.shutdown *)
 Definition cc_shutdown (s : st) : st :=
   let s := set_timers s (map (fun t => match t with TCtl _ => TCtl false | t => t end) (timers s)) in
   if cc_down s then s else
   let s := close_opt s (cc_conn s) in
-  mk (nconn s) (closed s) (cl_down s) (sess_down s) true (sched_down s) (pool s) None (queue s) (timers s) (nh s) (attempts s).
+  mk (nconn s) (closed s) (cl_down s) (sess_down s) true (sched_down s) (pool s) None (queue s) (timers s) (nh s) (attempts s) (npool s).
 
 (* Cluster.shutdown: scheduler.shutdown, control_connection.shutdown, every session.shutdown, executor.shutdown *)
 Definition cluster_shutdown (s : st) : st :=
   if cl_down s then s else
-  let s := mk (nconn s) (closed s) true (sess_down s) (cc_down s) true (pool s) (cc_conn s) (queue s) (timers s) (nh s) (attempts s) in
+  let s := mk (nconn s) (closed s) true (sess_down s) (cc_down s) true (pool s) (cc_conn s) (queue s) (timers s) (nh s) (attempts s) (npool s) in
   session_shutdown (cc_shutdown s).
 
 Definition connect (s : st) (during : bool) : st * nat :=
@@ -70,31 +88,46 @@ Definition connect (s : st) (during : bool) : st * nat :=
 Fixpoint remove_nth {A} (k : nat) (l : list A) : list A :=
   match l, k with [], _ => [] | _ :: t, O => t | x :: t, S k' => x :: remove_nth k' t end.
 
+(* run_add_or_renew_pool after HostConnection(...) has connected c: the locked region (session shut down meanwhile? /
+   previous = _pools.get(host); _pools[host] = new_pool), then previous.shutdown() *)
+Definition install_pool (s : st) (h c : nat) : st :=
+  if sess_down s then close s c                   (* fix cbd87a0: new_pool.shutdown() *)
+  else close_all (set_npool (upd_pool s h (Some (mkp (npool s) (Some c) false false []))) (S (npool s))) (opl_conns (pool s h)).
+
 Definition run_task (s : st) (t : task) (o : oc) (during : bool) : st :=
   match t with
-  | KAddPool h =>
+  | KAddPool h _ =>
       match o with
       | Err => s                                   (* not generated: failures of pool creation belong to C25 *)
       | Ok => if negb (h <? nh s) then s else          (* not a host of this cluster: never generated *)
-              let '(s, c) := connect s during in
-              if sess_down s then close s c          (* fix cbd87a0: shut down while connecting -> new_pool.shutdown() *)
-              else close_opt (upd_pool s h (Some (Some c, false))) (pool_conn (pool s h))   (* previous.shutdown() *)
+              let '(s, c) := connect s during in install_pool s h c
       end
-  | KReplace h c0 =>
+  | KReplace h p c0 m =>
       match pool s h with
-      | Some (Some c0', false) =>
-          if c0' =? c0 then
+      | Some q =>
+          if (pid q =? p) && negb (pshut q) then         (* the task belongs to this pool object; `if self.is_shutdown: return` *)
             match o with
-            | Err => let s := att s 1 in if sess_down s then s else set_queue s (queue s ++ [KReplace h c0])
+            | Err => let s := att s 1 in if sess_down s then s else set_queue s (queue s ++ [KReplace h p c0 m])
             | Ok => let '(s, c) := connect s during in
                     match pool s h with
-                    | Some (Some _, false) =>                       (* self._connection = conn; old connection closed *)
-                        close_opt (upd_pool s h (Some (Some c, false))) (pool_conn (pool s h))
-                    | _ => close s c           (* fix 084ea49: pool shut down while connecting -> conn.close() *)
+                    | Some q' =>
+                        if pshut q' then close s c       (* fix 084ea49: pool shut down while connecting -> conn.close() *)
+                        else
+                          match pconn q' with
+                          | Some c1 => if c1 =? c0 then
+                                         match m with
+                                         | RBusy => upd_pool s h (Some (mkp (pid q') (Some c) false false (c0 :: ptrash q')))
+                                         | _ => close (upd_pool s h (Some (mkp (pid q') (Some c) false false (ptrash q')))) c0
+                                         end
+                                       else close s c   (* unreachable under the _is_replacing discipline (prepl) *)
+                          | None => upd_pool s h (Some (mkp (pid q') (Some c) false false
+                                                            (match m with RBusy => c0 :: ptrash q' | _ => ptrash q' end)))
+                          end
+                    | None => close s c
                     end
             end
           else s
-      | _ => s
+      | None => s
       end
   | KCCReconnect =>
       match o with
@@ -105,7 +138,7 @@ Definition run_task (s : st) (t : task) (o : oc) (during : bool) : st :=
                if sched_down s then set_timers s (map (fun t => match t with TCtl _ => TCtl false | t => t end) (timers s))
                else set_timers s (map (fun t => match t with TCtl _ => TCtl false | t => t end) (timers s) ++ [TCtl true])
       | Ok => let '(s, c) := connect s during in
-              if cc_down s then close s c                                   (* _try_connect: is_shutdown -> close, raise *)
+              if cc_down s then close s c          (* _try_connect / _set_new_connection: is_shutdown -> close *)
               else set_cc (close_opt s (cc_conn s)) (Some c)               (* _set_new_connection *)
       end
   end.
@@ -131,11 +164,39 @@ Definition fire (s : st) (t : timer) (o : oc) (during : bool) : st :=
 
 Definition step (s : st) (o : op) : st * out :=
   match o with
-  | OPoolTask h => if sess_down s then (s, Refused) else (set_queue s (queue s ++ [KAddPool h]), Accepted)
-  | OReplace h => match pool_conn (pool s h) with
-                  | Some c => if sess_down s then (s, Refused) else (set_queue s (queue s ++ [KReplace h c]), Accepted)
+  | OPoolTask h i => if sess_down s then (s, Refused) else (set_queue s (queue s ++ [KAddPool h i]), Accepted)
+  | OReplace h busy =>          (* borrow_connection: orphan limit reached on the current connection *)
+      match pool s h with
+      | Some q => match pconn q with
+                  | Some c => if prepl q || pshut q then (s, Nothing) else
+                              let s1 := upd_pool s h (Some (mkp (pid q) (pconn q) (pshut q) true (ptrash q))) in
+                              if sess_down s then (s1, Refused)
+                              else (set_queue s1 (queue s1 ++ [KReplace h (pid q) c (if busy then RBusy else RIdle)]), Accepted)
                   | None => (s, Nothing)
                   end
+      | None => (s, Nothing)
+      end
+  | OConnLost h =>              (* the current connection died and is returned (host not convicted) *)
+      match pool s h with
+      | Some q => match pconn q with
+                  | Some c => if pshut q then (s, Nothing) else
+                              let s1 := close (upd_pool s h (Some (mkp (pid q) None false true (ptrash q)))) c in
+                              if prepl q then (s1, Nothing) else
+                              if sess_down s then (s1, Refused)
+                              else (set_queue s1 (queue s1 ++ [KReplace h (pid q) c RLost]), Accepted)
+                  | None => (s, Nothing)
+                  end
+      | None => (s, Nothing)
+      end
+  | OTrashDone h =>             (* the last request of a trashed connection completes: return_connection closes it *)
+      match pool s h with
+      | Some q => match ptrash q with
+                  | c :: rest => if pshut q || existsb (Nat.eqb c) (closed s) then (s, Nothing)     (* no longer in _trash / already dead *)
+                                 else (close (upd_pool s h (Some (mkp (pid q) (pconn q) (pshut q) (prepl q) rest))) c, Nothing)
+                  | [] => (s, Nothing)
+                  end
+      | None => (s, Nothing)
+      end
   | OCCReconnect => if cc_down s || cl_down s then (s, Refused) else (set_queue s (queue s ++ [KCCReconnect]), Accepted)
   | OStartRecon h =>
       if sched_down s then (s, Refused) else
@@ -145,6 +206,20 @@ Definition step (s : st) (o : op) : st * out :=
                     | Some t => (run_task (set_queue s (remove_nth k (queue s))) t oc_ d, Nothing)
                     | None => (s, Nothing)
                     end
+  | ORunNested k j =>
+      match nth_error (queue s) k with
+      | Some (KAddPool h _) =>
+          let s0 := set_queue s (remove_nth k (queue s)) in
+          match nth_error (queue s0) j with
+          | Some (KAddPool h' i') =>
+              if negb (h <? nh s) || negb (h' <? nh s) then (s, Nothing) else
+              let '(s1, c) := connect s0 false in
+              let s2 := run_task (set_queue s1 (remove_nth j (queue s1))) (KAddPool h' i') Ok false in
+              (install_pool s2 h c, Nothing)
+          | _ => (s, Nothing)
+          end
+      | _ => (s, Nothing)
+      end
   | OFire k oc_ d => if sched_down s then (s, Nothing) else
                      match nth_error (timers s) k with
                      | Some t => (fire (set_timers s (remove_nth k (timers s))) t oc_ d, Nothing)
@@ -160,20 +235,28 @@ Definition run (s : st) (os : list op) : st := fold_left (fun s o => fst (step s
 
 (* after Cluster.connect(): control connection = connection 0, one pool (connection h+1) per host *)
 Definition init (n : nat) : st :=
-  mk (S n) [] false false false false (fun h => if h <? n then Some (Some (S h), false) else None) (Some 0) [] [] n 0.
+  mk (S n) [] false false false false (fun h => if h <? n then Some (mkp h (Some (S h)) false false []) else None) (Some 0) [] [] n 0 n.
 
 (* ---------------------------------------------------------------- observation *)
 Local Open Scope Z_scope.
 Definition zn (n : nat) : Z := Z.of_nat n.
 Definition zo (o : option nat) : Z := match o with Some c => zn c | None => -1 end.
+Definition obs_mode (m : rmode) : Z := match m with RIdle => 0 | RBusy => 1 | RLost => 2 end.
 Definition obs_task (t : task) : Z :=
-  match t with KAddPool h => 100 + zn h | KReplace h c => 2000 + 100 * zn h + zn c | KCCReconnect => 300 end.
+  match t with
+  | KAddPool h i => 100 + 10 * zn h + Z.b2z i
+  | KReplace h p c m => 100000 + 10000 * zn h + 1000 * obs_mode m + 100 * zn p + zn c
+  | KCCReconnect => 300
+  end.
 Definition obs_timer (t : timer) : Z := match t with TRecon h _ => 10 + zn h | TCtl _ => 20 end.
 Definition obs_out (o : out) : Z := match o with Refused => 0 | Accepted => 1 | Nothing => 2 end.
 Definition obs (s : st) (o : out) : list Z :=
   [zn (nconn s); zn (attempts s); Z.b2z (cl_down s); Z.b2z (sess_down s); Z.b2z (cc_down s); Z.b2z (sched_down s); zo (cc_conn s); -1]
   ++ map zn (filter (fun c => existsb (Nat.eqb c) (closed s)) (seq 0 (nconn s))) ++ [-2]
-  ++ flat_map (fun h => match pool s h with None => [-9] | Some (c, b) => [zo c; Z.b2z b] end) (seq 0 (nh s)) ++ [-3]
+  ++ flat_map (fun h => match pool s h with
+                        | None => [-9]
+                        | Some q => [zn (pid q); zo (pconn q); Z.b2z (pshut q); Z.b2z (prepl q); -8] ++ map zn (ptrash q) ++ [-7]
+                        end) (seq 0 (nh s)) ++ [-3]
   ++ map obs_task (queue s) ++ [-4] ++ map obs_timer (timers s) ++ [-5; obs_out o].
 
 Fixpoint trace (s : st) (os : list op) : list (list Z) :=
